@@ -160,13 +160,18 @@ def _floats():
 
 @functools.lru_cache(maxsize=None)
 def _healthy_value(fmt):
+    """In-domain metadata value; the type is chosen first from an explicit weighted list (one_of is not uniform)."""
     text = _plain_text(fmt)
     if fmt == "xl":
         # Excel carries typed cells: any printable text (also "12", "true"), doubles, booleans
-        xl_text = st.one_of(text, st.sampled_from(["12", "-3", "1.5", "true", "None", "[a b]", " lead", "trail ", "a,b"]))
-        return st.one_of(xl_text, xl_text, _floats(), _floats(), st.booleans())
-    ints = st.one_of(st.integers(0, 20), st.integers(0, 10 ** 6), st.just(2 ** 70 + 1))
-    return st.one_of(text, text, ints, _floats(), st.booleans())
+        kinds = {"text": text, "float": _floats(), "bool": st.booleans(),
+                 "typed_text": st.sampled_from(["12", "-3", "1.5", "true", "None", "[a b]", " lead", "trail ", "a,b"])}
+        weights = ["text"] * 4 + ["typed_text"] * 2 + ["float"] * 3 + ["bool"]
+    else:
+        kinds = {"text": text, "float": _floats(), "bool": st.booleans(),
+                 "int": st.one_of(st.integers(0, 20), st.integers(0, 10 ** 6), st.just(2 ** 70 + 1))}
+        weights = ["text"] * 4 + ["int"] * 2 + ["float"] * 3 + ["bool"]
+    return st.sampled_from(weights).flatmap(lambda k: kinds[k])
 
 
 def _enc_nonfinite(name):
@@ -989,11 +994,11 @@ def _mk(fmt, outside):
 CHECKS = []
 for _f in FORMATS:
     CHECKS.append(Check(f"{_f}_roundtrip", check_roundtrip, strategy=_mk(_f, False),
-                        budget={"quick": 2000, "thorough": 40000},
+                        budget={"quick": 2400, "thorough": 40000},
                         rule=f"{_f}: isotherm_from_{_f}(isotherm_to_{_f}(x)) field by field and ==, content inside the domain"))
 for _f in FORMATS:
     CHECKS.append(Check(f"{_f}_outside", check_outside, strategy=_mk(_f, True),
-                        budget={"quick": 1000, "thorough": 20000},
+                        budget={"quick": 1200, "thorough": 20000},
                         rule=f"{_f}: one entry outside the value domain: pgError or exact round trip"))
 
 
